@@ -143,7 +143,7 @@ stmt
 		$<dex>$->right = $<dex>3;
 	}
 	| TOK_NOT stmt {
-		($<dex>$ = $<dex>2)->nega = 1;
+		($<dex>$ = $<dex>2)->nega ^= 1;
 	}
 	| TOK_LPAREN stmt TOK_RPAREN {
 		$<dex>$ = $<dex>2;
